@@ -114,6 +114,9 @@ def run_unit(unit, repo_root, rlimit=None, extra_args=None, canary=False, timeou
     res.trusted = scan_trusted(text)
     cmd = ['verus', fed, '--output-json', '--time', '--error-format=json', '--multiple-errors', '5',
            '--num-threads', str(num_threads)]
+    mrl = re.search(r'^//@rlimit\s+(\d+)', tmpl, re.M)
+    if rlimit is None and mrl:
+        rlimit = int(mrl.group(1))
     if rlimit:
         cmd += ['--rlimit', str(rlimit)]
     cmd += (extra_args or [])
